@@ -184,32 +184,26 @@ theorem type_list_guard_faults :
 /-! ## operators on typed operands -/
 
 /-- `==` on a container of any kind — in particular a typed container against itself — is `false`, `!=` is
-`true`, for the current code; never a fault (the left operand is not of the finding's class) -/
-theorem eq_neq_container (rx : RxEngine) (l r : Val) (hl : isContainer l = true) (ht : passesGuard l = false) :
+`true`, for the current code (since 6d0c31a also for a struct/array holding a slice in an interface field);
+never a fault -/
+theorem eq_neq_container (rx : RxEngine) (l r : Val) (hl : isContainer l = true) :
     evalOp Dev.current rx .eq l r = .ok (.bool false) ∧ evalOp Dev.current rx .neq l r = .ok (.bool true) := by
-  rw [evalOp_current_partial rx .eq l r (by simp [ht]), evalOp_current_partial rx .neq l r (by simp [ht])]
+  rw [evalOp_current rx .eq l r, evalOp_current rx .neq l r]
   cases l <;> simp_all [isContainer, isArr, isObj, isUExt, Spec.evalOp, Spec.eqv, Spec.num?]
   case ext a => cases r <;> simp_all [Spec.sameExt]
 
-example : isContainer (.ext ⟨40, false, 0, .none, false⟩) = true ∧ passesGuard (.ext ⟨40, false, 0, .none, false⟩) = false := ⟨rfl, rfl⟩
+example : isContainer (.ext ⟨40, false, 0, .none, false⟩) = true ∧ isContainer trapVal = true := ⟨rfl, rfl⟩
 
-/-- two typed values are equal exactly when they are the same value of the same comparable type; outside the
-finding's class -/
-theorem eq_typed (rx : RxEngine) (a b : Ext) (h : (a.tcmp && (a.ty == b.ty && !a.cmp)) = false) :
+/-- two typed values are equal exactly when they are the same value of the same type on which `==` is safe -/
+theorem eq_typed (rx : RxEngine) (a b : Ext) :
     evalOp Dev.current rx .eq (.ext a) (.ext b) = .ok (.bool (a.ty == b.ty && a.cmp && a.id == b.id)) := by
-  rw [evalOp_current_partial rx .eq (.ext a) (.ext b) (by simpa [passesGuard, uncomparablePair, sameContainer, isArr, isObj, sameUExt] using h)]
+  rw [evalOp_current rx .eq (.ext a) (.ext b)]
   rfl
-
-example : ((⟨20, true, 1, .none, true⟩ : Ext).tcmp && ((20 : Nat) == 20 && !(⟨20, true, 1, .none, true⟩ : Ext).cmp)) = false := rfl
 
 /-- a typed value never equals a JSON-like value (`myInt(1) == 1` is false), in either order -/
 theorem eq_typed_plain (rx : RxEngine) (a : Ext) (r : Val) (hr : ∀ b, r ≠ .ext b) :
     evalOp Dev.current rx .eq (.ext a) r = .ok (.bool false) ∧ evalOp Dev.current rx .eq r (.ext a) = .ok (.bool false) := by
-  have h1 : (passesGuard (.ext a) && uncomparablePair .eq (.ext a) r) = false := by
-    cases r <;> simp_all [uncomparablePair, sameContainer, isArr, isObj, sameUExt]
-  have h2 : (passesGuard r && uncomparablePair .eq r (.ext a)) = false := by
-    cases r <;> simp_all [passesGuard]
-  rw [evalOp_current_partial rx .eq _ _ h1, evalOp_current_partial rx .eq _ _ h2]
+  rw [evalOp_current rx .eq _ _, evalOp_current rx .eq _ _]
   cases r <;> simp_all [Spec.evalOp, Spec.eqv, Spec.num?]
 
 example : ∀ b, Val.int 1 ≠ .ext b := by intro b h; cases h
@@ -314,12 +308,12 @@ theorem multi_first_same (d : Dev) (rx : RxEngine) (prog : List Item) (elem root
     matchElemMultiFirst d rx prog elem root = matchElem d rx prog elem root := by
   simp [matchElemMultiFirst, h]
 
-/-! ## a sufficient condition on the data for `TrapFree` -/
+/-! ## before 6d0c31a: a sufficient condition on the data for `TrapFree` -/
 
 /-- a value of the finding's class: its type is comparable, `==` on it is not safe -/
 def isTrap (v : Val) : Bool := passesGuard v && isContainer v
 
-theorem devHit_current (o : Op) (l r : Val) (h : isTrap l = false) : devHit Dev.current o l r = false := by
+theorem devHit_before_6d0c31a (o : Op) (l r : Val) (h : isTrap l = false) : devHit Dev.before6d0c31a o l r = false := by
   have hu : (passesGuard l && uncomparablePair o l r) = false := by
     cases hp : passesGuard l
     · rfl
@@ -327,7 +321,7 @@ theorem devHit_current (o : Op) (l r : Val) (h : isTrap l = false) : devHit Dev.
       have hs : ∀ y, sameContainer l y = false := fun y => sameContainer_noncontainer l y hc
       cases o <;> simp [uncomparablePair, hs]
       cases r <;> simp [hs]
-  simp [devHit, Dev.faultFlag, Dev.current, hu]
+  simp [devHit, Dev.faultFlag, Dev.before6d0c31a, hu]
 
 theorem evalOp_not_trap (rx : RxEngine) (o : Op) (l r : Val) (h : isTrap l = false) :
     isTrap (Spec.evalOp rx o l r) = false := by
@@ -355,22 +349,22 @@ theorem eval_not_trap (rx : RxEngine) (t : Tm) : noTrapTm t = true → isTrap (S
   | app1 o a iha => intro h; exact evalOp_not_trap rx o _ _ (iha h)
   | app2 o a b iha _ => intro h; simp only [noTrapTm, Bool.and_eq_true] at h; exact evalOp_not_trap rx o _ _ (iha h.1)
 
-theorem clean_of_noTrapTm (rx : RxEngine) (t : Tm) : noTrapTm t = true → Clean Dev.current rx t = true := by
+theorem clean_of_noTrapTm (rx : RxEngine) (t : Tm) : noTrapTm t = true → Clean Dev.before6d0c31a rx t = true := by
   induction t with
   | const v => intro _; rfl
   | path p => intro _; rfl
   | app1 o a iha =>
     intro h
     simp only [Clean, Bool.and_eq_true, Bool.not_eq_eq_eq_not, Bool.not_true]
-    exact ⟨iha h, devHit_current o _ _ (eval_not_trap rx a h)⟩
+    exact ⟨iha h, devHit_before_6d0c31a o _ _ (eval_not_trap rx a h)⟩
   | app2 o a b iha ihb =>
     intro h
     simp only [noTrapTm, Bool.and_eq_true] at h
     by_cases hc : o.cnt = 1
     · simp only [Clean, hc, ↓reduceIte, Bool.and_eq_true, Bool.not_eq_eq_eq_not, Bool.not_true]
-      exact ⟨iha h.1, devHit_current o _ _ (eval_not_trap rx a h.1)⟩
+      exact ⟨iha h.1, devHit_before_6d0c31a o _ _ (eval_not_trap rx a h.1)⟩
     · simp only [Clean, hc, ↓reduceIte, Bool.and_eq_true, Bool.not_eq_eq_eq_not, Bool.not_true]
-      exact ⟨⟨iha h.1, ihb h.2⟩, devHit_current o _ _ (eval_not_trap rx a h.1)⟩
+      exact ⟨⟨iha h.1, ihb h.2⟩, devHit_before_6d0c31a o _ _ (eval_not_trap rx a h.1)⟩
 
 theorem norm_not_trap (v : Val) (h : isTrap v = false) : isTrap v.norm = false := by
   cases v <;> try exact h
@@ -448,10 +442,10 @@ theorem trapFree_of_data (rx : RxEngine) (t : Tm) (elem root : Val) (h : noTrapI
   fun c hc => clean_of_noTrapTm rx c (choices_noTrap elem root _ (noTrapIn_normalise elem root t h) c hc)
 
 /-- hence: on data without such values Script.Match of every well-formed script is the specified verdict -/
-theorem script_spec_current_of_data (rx : RxEngine) (t : Tm) (hwf : t.wf = true) (elem root : Val)
+theorem script_spec_before_6d0c31a_of_data (rx : RxEngine) (t : Tm) (hwf : t.wf = true) (elem root : Val)
     (h : noTrapIn elem root t) :
-    matchElem Dev.current rx (compile true t) elem root = .ok (Spec.matches rx t elem root) :=
-  script_spec_current_partial rx t hwf elem root (trapFree_of_data rx t elem root h)
+    matchElem Dev.before6d0c31a rx (compile true t) elem root = .ok (Spec.matches rx t elem root) :=
+  script_spec_before_6d0c31a_partial rx t hwf elem root (trapFree_of_data rx t elem root h)
 
 /-- non-trivial instance: `@.a == @.b` where both members are `[]int` (typed containers are not of the class) -/
 example : noTrapIn (.obj [([97], .ext ⟨40, false, 0, .none, false⟩), ([98], .ext ⟨40, false, 1, .none, false⟩)]) .null
@@ -463,22 +457,5 @@ example : noTrapIn (.obj [([97], .ext ⟨40, false, 0, .none, false⟩), ([98], 
   · have : Spec.sel ⟨false, [.child [98]]⟩ (.obj [([97], .ext ⟨40, false, 0, .none, false⟩), ([98], .ext ⟨40, false, 1, .none, false⟩)]) .null
         = [.ext ⟨40, false, 1, .none, false⟩] := rfl
     rw [this] at hv; simp at hv; subst hv; rfl
-
-/-- the filter route on such data -/
-theorem filter_spec_current_of_data (rx : RxEngine) (t : Tm) (hwf : t.wf = true) (elem root : Val)
-    (hdata : ∀ p, t = .path p → NoNothing (Spec.sel p elem root)) (h : noTrapIn elem root t) :
-    matchElem Dev.current rx (compile false t) elem root = .ok (Spec.matches rx t elem root) :=
-  filter_spec_current_partial rx t hwf elem root hdata (trapFree_of_data rx t elem root h)
-
-/-- THE CLAUSE on such data: `$[?script]` applied to `xs` returns exactly, in order, the elements on which
-`Script.Match` is true — for every well-formed script without a `$` path, with hypotheses on the data only -/
-theorem match_iff_in_filter_of_data (rx : RxEngine) (t : Tm) (hwf : t.wf = true) (hrf : rootFree t = true) (xs : List Val)
-    (hdata : ∀ v ∈ xs, ∀ p, t = .path p → NoNothing (Spec.sel p v v))
-    (h : ∀ v ∈ xs, noTrapIn v v t) :
-    filterGet Dev.current rx (compile false t) (.arr xs) =
-        .ok (xs.filter fun v => isOkTrue (matchElem Dev.current rx (compile true t) v v)) ∧
-    ∀ res, filterGet Dev.current rx (compile false t) (.arr xs) = .ok res →
-      ∀ v, v ∈ res ↔ (v ∈ xs ∧ matchElem Dev.current rx (compile true t) v v = .ok true) :=
-  match_iff_in_filter rx t hwf hrf xs hdata (fun v hv => trapFree_of_data rx t v v (h v hv))
 
 end OjgVerif.C12
